@@ -116,9 +116,14 @@ def r_fallback(ctx, rule='R-FALLBACK'):
         if not any(c.callee == f.path for c in f.calls()):
             continue
         rnd = [c for c in f.calls() if c.callee.endswith('randomly_split_children')]
+        if not rnd:
+            # the random assignment written out (or inlined) in the constructor itself
+            rnd = [c for c in f.calls() if c.callee.endswith('Side::random')]
         okf = False
         for c in rnd:
-            for s, x, e in paths.controlling_conds(f, c.bb, transitive=False):
+            for s, x, e in paths.controlling_conds(f, c.bb, transitive=True):
+                if not paths.edge_dominates(f, s, x, c.bb):
+                    continue
                 if e[0] == 'bool' and e[2]:
                     cc = strip(e[1])
                     if cc[0] == 'binop' and cc[1] in ('Gt', 'Ge') and strip(cc[3])[0] == 'const' and \
